@@ -106,8 +106,20 @@ def case(draw):
     for _ in range(draw(st.integers(1, 3))):
         words = draw(st.lists(lang.word, min_size=1, max_size=3))
         pre = draw(st.sampled_from(['', '', 'APLPAY ', 'SQ *', 'APLPAY SQ *', 'APLPAY APLPAY ', 'SQ *SQ *', 'TST*APLPAY ']))
-        probes.append({'desc': pre + ' '.join(words) + ' ' + draw(st.sampled_from(UNIQ)),
+        sep = draw(st.sampled_from([' ', ' ', '  ', '   ']))
+        probes.append({'desc': pre + sep.join(words) + sep + draw(st.sampled_from(UNIQ)),
                        'amount': draw(st.one_of(st.sampled_from([x + d for x in (50, 100, 200, 500) for d in (-0.01, 0, 0.01)]), st.integers(100, 99999).map(lambda c: c / 100.0)))})
+    # a rule that is sensitive to the exact spacing of a probe description (column-padded statements)
+    spaced = [p for p in probes if '  ' in p['desc']]
+    if spaced and b['rules_kind'] == 'rules' and draw(st.booleans()):
+        d = spaced[0]['desc']
+        i = d.index('  ')
+        frag = d[max(0, i - 3):i + 5]
+        kind = draw(st.integers(0, 2))
+        m = ['match', 'contains', None, frag] if kind == 0 else (['match', 'regex', None, r'\S\s{2,}\S'] if kind == 1 else ['not', ['match', 'regex', None, r'\s{2,}']])
+        rule = {'name': 'Spacing Rule', 'match': m, 'category': 'Bills & Utilities', 'subcategory': 'Padded', 'merchant': None, 'priority': 95, 'tags': [], 'lets': [], 'fields': []}
+        rf = b['rf']
+        b = dict(b, rf=dict(rf, rules=[rule] + rf['rules']))
     return {'b': b, 'probes': probes}
 
 
